@@ -360,7 +360,7 @@ theorem response_validates (a : Agent) (now : Nat) (l : Cand) (src : Nat) (m : M
     simp only [beq_self_eq_true, if_true] at this
     exact this
   refine ⟨?_, ?_, ?_⟩
-  · exact succ_modPair p.id (fun p => { p with respRecv := p.respRecv + 1 }) (fun _ => rfl) (fun _ => rfl)
+  · exact succ_modPair p.id (Pair.gotResponse now pd.ts) (fun _ => rfl) (fun _ => rfl)
       (succ_hsFin _ p pd (succ_hsSel p pd hB))
   · intro hc hu hn
     exact (congrArg Option.isSome (hsFin_selected _ p pd _)).trans
